@@ -27,12 +27,20 @@ RULE = (
     "polygons (triangle, parallelogram, star-shaped, non-convex bank L/U/T/chevron/notch under integer maps, both "
     "orientations) embedded exactly planar in 3-d (coordinate planes and tilted planes); query points above the "
     "interior / edges / outside, in the plane, and arbitrary; query segments piercing, touching, coplanar, parallel "
-    "to and missing the polygon. Coordinates are integers divided by 1, 2 or 4. Oracle: exact squared distances "
+    "to and missing the polygon. Coordinates are integers divided by 1, 2 or 4 (class lattice). In every second case "
+    "(class transformed) the same configuration is mapped in floating point by x -> scale*x + offset with a unit "
+    "factor scale in {1e-4, 1e-2, 0.3048, 1, 3.7, 1e2, 1e4} and a non-dyadic offset m*(0.5123456789, 0.6712345678, "
+    "-0.1234567891), m in {0, 1e3, 1e5, 1e7}, m <= 5e7*scale (labels scaled, far-offset); the rounded floats are the "
+    "input and the oracle converts them exactly, so lattice degeneracies become perturbed by ~eps*|coordinate| (not "
+    "more: no other near-degenerate float configurations are generated); for scale < 1 the polygon functions get "
+    "tol = 1e-5*scale. Oracle: exact squared distances "
     "with fractions.Fraction (point-segment closed form; segment-segment = min of the four end-point distances and "
     "the interior critical point; point-polygon = height if the foot is in the polygon else nearest edge; "
-    "segment-polygon = 0 if they meet else min of end-point and edge distances). |d - sqrt(d2_exact)| <= "
-    "1e-9*scale + 1e-12; each returned closest point (converted exactly) is within 1e-9*scale of its object and the "
-    "points realise d. Non-trivial = two objects at positive distance (pointset: >= 2 points) or a polygon with more "
+    "segment-polygon = 0 if they meet else min of end-point and edge distances), sqrt of the correctly rounded "
+    "rational. Tolerance T for |d - d_exact|, for the distance of a returned closest point (converted exactly) from "
+    "its object, and for the returned points realising d: lattice class T = 1e-9*max(1, max|coordinate|) + 1e-12; "
+    "transformed class T = 256*eps*max|coordinate| + 1e-12*extent of the configuration, i.e. what an evaluation that "
+    "forms coordinate differences first achieves, with head room for the perturbed degeneracies. Non-trivial = two objects at positive distance (pointset: >= 2 points) or a polygon with more "
     "than 3 vertices; distinct = hash of spec."
 )
 BUDGET = {"quick": {"cases": 9000, "seconds": 35}, "thorough": {"cases": 400000, "seconds": 1100}}
@@ -42,13 +50,15 @@ LEVEL_TEXT = ("Exploration: thousands of generated lattice configurations per ru
               "foot on an edge / vertex, non-convex polygons) forced by construction; distances and closest points "
               "are compared with exact rational arithmetic.")
 LEVEL_NOTE = ("Lattice coordinates (integers / 1, 2, 4; magnitude <= ~60) so that every degeneracy is exact or far from "
-              "the functions' internal tolerances; behaviour inside tolerance bands and for nearly-parallel segments "
-              "is not examined. Zero-length segments and degenerate polygons are not generated. The boolean "
+              "the functions' internal tolerances, plus similarity transforms of these configurations (unit factors "
+              "1e-4..1e4, offsets up to 6.7e6) whose degeneracies are perturbed only by coordinate rounding; behaviour "
+              "inside tolerance bands and for generic nearly-parallel segments is not examined. Zero-length segments and degenerate polygons are not generated. The boolean "
               "'in_poly' output of points_polygon is not checked. For segments_polygon the docstring does not say on "
               "which object the closest point lies; either is accepted.")
 DESIGN_REF = "DESIGN.md section 4, C30"
 ASSUMPTIONS = [
     "arrays are passed with the documented shapes (nd, n), float dtype",
+    "transformed class: the absolute tolerance of points_polygon / segments_polygon is passed as 1e-5*scale for scale < 1",
     "segments have distinct end points; polygons are simple, exactly planar and have non-zero area",
     "only the default Euclidean exponent of point_pointset is covered",
     "segments_polygon: the returned point may be on the segment or on the polygon",
@@ -121,7 +131,23 @@ def _known_coplanar_cp(s) -> bool:
     return False
 
 
+def _known_unit_tolerance(s) -> bool:
+    """segment_segment_set / segment_set / segments_polygon (segment against polygon edges) on a configuration whose
+    segments are very long or very short in the unit of the coordinates: some squared length above 1e7 (rounding
+    noise of the length^4 discriminant exceeds the length^2 tolerance: parallel segments misjudged) or below 1e-5
+    (everything judged parallel / clamped)."""
+    if s["fn"] not in ("segment_segment_set", "segment_set", "segments_polygon") or s.get("tf") is None:
+        return False
+    segs = [(_real(a, s), _real(b, s)) for a, b in s["segs"]]
+    if s["fn"] == "segments_polygon":
+        P = [[float(x) for x in v] for v in _poly(s)]
+        segs += [(P[i], P[(i + 1) % len(P)]) for i in range(len(P))]
+    l2 = [sum((x - y) ** 2 for x, y in zip(a, b)) for a, b in segs]
+    return max(l2) > 1e7 or min(l2) < 1e-5
+
+
 KNOWN = {
+    "C30-segment-segment-set-unit-dependent-tolerance": _known_unit_tolerance,
     "C30-segment-set-always-raises": lambda s: s["fn"] == "segment_set",
     "C30-polygon-distance-edge-line-interior": _known_edge_line,
     "C30-segments-polygon-coplanar-closest-point": _known_coplanar_cp,
